@@ -14,8 +14,10 @@ def run(ck: Checker):
     ck.rule('C07-1', 'race-free resolution: a direct set_result/set_exception in the gather thread is protected against the caller cancelling concurrently (InvalidStateError handled inside the loop) or deferred to the event loop; `if not fut.cancelled()` alone is check-then-act (EXITS)', minimum=4)
     ck.rule('C07-2', 'an id that is no longer in the ledger is tolerated: KeyError handled inside the gather loop', minimum=2)
     ck.rule('C07-3', "abandonment is local: on expiry only the caller's own future is cancelled; ledger, queues and admission condition are not touched; stream cleanup only cancels (WHO)", minimum=4)
+    ck.rule('C07-4', 'a late result of an abandoned (cancelled) request still gives its slot back and wakes a waiter: ledger removal and exactly one signal per message whatever the state of the future — otherwise other callers stay blocked (EXITS+COUNT)', minimum=8)
     for name in server.SERVERS:
         s = server.discover(ck.repo, name)
+        server.check_slot_return(ck, 'C07-4', s)
         server.check_race_free_resolution(ck, 'C07-1', s)
         server.check_unknown_id_tolerated(ck, 'C07-2', s)
         server.check_abandon_local(ck, 'C07-3', s)
